@@ -373,3 +373,38 @@ Proof.
   intros src. split; [apply pop3_roundtrip|]. rewrite pop3_roundtrip. fold (pop3_norm (pop3_norm src)).
   rewrite pop3_norm_idempotent. reflexivity.
 Qed.
+
+(** ** Exactly what is normalised
+
+    [pop3_norm_only_line_endings] compares the bytes other than CR and LF, so it cannot see a
+    lost or moved bare CR.  The exact statement: cut the source at its LFs; every piece comes
+    back with exactly one CR before its LF - a piece that already ends in CR is unchanged (only
+    ONE CR counts as part of the line ending: "a CR CR LF" stays "a CR CR LF"), a piece that
+    does not gets a CR appended ("a LF" becomes "a CR LF"), and a final piece without LF is
+    terminated the same way.  Nothing else changes, no byte moves. *)
+Theorem pop3_norm_pieces : forall src,
+  lines_lf (pop3_norm src) = map (fun l => trim_cr l ++ [CR]) (lines_lf src).
+Proof.
+  intros src. unfold pop3_norm, crlf_join, wire_lines, scan_lines.
+  assert (H : forall l, In l (lines_lf src) -> ~ In LF l) by apply lines_lf_no_lf.
+  induction (lines_lf src) as [|l ls IH]; [reflexivity|].
+  cbn [map concat]. rewrite <- app_assoc.
+  rewrite lines_lf_wire by (intros X; apply trim_cr_incl in X; exact (H l (or_introl eq_refl) X)).
+  rewrite IH by (intros l' H'; apply H; right; exact H'). reflexivity.
+Qed.
+
+Lemma trim_cr_readd l : trim_cr (l ++ [CR]) ++ [CR] = l ++ [CR].
+Proof. rewrite trim_cr_snoc. reflexivity. Qed.
+
+(** A piece that ends in CR is untouched; in particular a second CR before it stays. *)
+Theorem pop3_norm_piece_with_cr : forall l, trim_cr (l ++ [CR]) ++ [CR] = l ++ [CR].
+Proof. exact trim_cr_readd. Qed.
+
+Example pop3_norm_examples :
+  pop3_norm [97; 13; 13; 10] = [97; 13; 13; 10] /\      (* a CR CR LF: unchanged *)
+  pop3_norm [97; 13; 10] = [97; 13; 10] /\              (* a CR LF: unchanged *)
+  pop3_norm [97; 10] = [97; 13; 10] /\                  (* a LF: CR inserted *)
+  pop3_norm [97; 13; 98; 10] = [97; 13; 98; 13; 10] /\  (* a bare CR inside a line stays where it is *)
+  pop3_norm [97; 13] = [97; 13; 10] /\                  (* unterminated "a CR": read as "a", terminated *)
+  pop3_norm [97] = [97; 13; 10].
+Proof. vm_compute. repeat split; reflexivity. Qed.
